@@ -478,3 +478,28 @@ for _p, _part, _kq, _kt in [("C02", None, 5, 16), ("C03", None, 5, 16), ("C04", 
 # "reads nothing past the file" observation did not happen.
 PLANS["C13"].setdefault("require", {}).setdefault("quick", []).append(("counter", "page_exact.guard_pages_placed", 1))
 PLANS["C13"]["require"].setdefault("thorough", []).append(("counter", "page_exact.guard_pages_placed", 1))
+
+# Workload added after the seeded-defect rounds (appended to the rule texts that the evidence files quote).
+_RULE_ADDENDA = {
+    "C01": "; (d) vectors whose set/unset bits sit only in chosen words of each 512-bit block (every single word, first+last, alternating empty blocks); extreme arguments for every query; bitvectors converted out of multisets",
+    "C02": "; zero-run cases shifted to the top of universes next to 2^64; clustered vectors of 10^5+ values (part large)",
+    "C03": "; decompositions with no-op set_len / empty runs / refused calls between the pieces of one run; (fit) every (units already in the block, gap code length, run code length) combination at a block end",
+    "C04": "; constant, length-1 and empty vectors; select_iter from ranks 0..usize::MAX through next/nth/skip/count",
+    "C06": "; loads through a short-read reader; serialize_to over an existing longer file; 2.2 Mbit bitvector with long/short/partial select superblocks; universes near 2^64",
+    "C07": "; vectors produced by push/pop/resize histories and by conversions (out of sets, multisets, run-length vectors); every structure kind also as the body of a present optional structure, incl. wavelet matrices with levels of different sizes",
+    "C08": "; 1.2 Mbit bitvectors with long superblocks whose iterators are walked to the end; wrap-around lengths for RawVector::with_len; mappers' and writers' accessors; bounds-hook hits in replayed workloads count",
+    "C09": "; nth_back after items taken from the front (and nth after items taken from the back) followed by len/size_hint/nth(0)",
+    "C10": "; run-length instances built through four builder decompositions",
+    "C11": "; Sparse/RL chains over universes 2^48..usize::MAX (part huge), every intermediate value validated before it is converted again; multisets with duplicates converted to BitVector",
+    "C12": "; every third case writes over an existing longer file; extend with iterators without an exact size hint; accessors (is_empty, width, filename, max_len)",
+    "C13": "; files of an exact number of pages ending with a raw/integer vector, an inaccessible page placed directly behind the mapping (part page_exact); non-ASCII strings",
+    "C14": "; close() again after every reported failure; serialize_to on /dev/full and under RLIMIT_FSIZE; mapped files cut inside an element",
+    "C15": "; multisets of 10^5..3*10^5 values (overfull tiny universes, far-apart clusters of duplicates, crowded buckets) (part large)",
+    "C16": "; conversion compared with a vector built from scratch from the accepted values (==, bytes, backward walk); RL runs meeting a block end in every way (rl_fit)",
+    "C18": "; after every single drop the surviving maps are accounted for in /proc/self/maps and read; files with mode 0444 mapped mutably (privileged process); refused files leave no mapping",
+    "C19": "; enable_pred_succ() as the first enabler; rewritten files also loaded as the body of Option<...>; skip_option over library-written optional structures (skewed wavelet matrices, nested) and through short-read readers",
+    "C20": "; name parts of ten classes, different spellings of one location compared after lexical normalisation, 243..300-byte parts; one thread asking for 2^20+ names; fresh processes whose first calls are concurrent; stale files at future numbers",
+}
+for _p, _t in _RULE_ADDENDA.items():
+    if _t not in PLANS[_p]["rule"]:
+        PLANS[_p]["rule"] = PLANS[_p]["rule"] + _t
